@@ -252,11 +252,9 @@ func run(id, tier string) int {
 		} else {
 			repro = 5
 		}
-		if repro == 0 {
-			// Not reproducible at all: still a violation (flaky), reported with what was seen.
-			f.Kind = "flaky-" + f.Kind
-		}
-		if repro == 5 && c.Minimise != nil && f.Kind != "crash" && time.Now().Before(classifyDeadline) {
+		if c.Minimise != nil && f.Kind != "crash" && time.Now().Before(classifyDeadline) {
+			// Minimise also when the violation is not reproducible every time
+			// (the implementation iterates Go maps): the reproducer then retries.
 			if m := c.Minimise(&f); m != nil {
 				f = *m
 			}
